@@ -36,6 +36,12 @@ class Check(PropertyCheck):
             if i % 60 == 13:
                 yield self.wide_scenario(rng)
                 continue
+            if i % 12 == 9:
+                # a dispatcher with a user-defined ready-operations filter (it decides what is available, hence what "now" is)
+                yield Scenario(["new", f"mark customfilter {rng.randint(0, 10**6)}"],
+                               {"family": "custom_filter", "builder": "custom", "rm_machine": 1, "rm_job": 1, "flexible": False,
+                                "filter": "user-defined", "accepted": 0, "episodes": 1, "filter_style": "callable"})
+                continue
             if i % 12 == 5:
                 yield Scenario(["new", f"mark customblocks {rng.randint(0, 10**6)}"],
                                {"family": "custom_blocks", "builder": "custom", "rm_machine": 1, "rm_job": 1, "flexible": False,
@@ -245,6 +251,8 @@ class Check(PropertyCheck):
 
     def oracle(self, impl, scenario, index, line, out, ctx):
         res = []
+        if line.startswith("mark customfilter"):
+            return oracles.custom_filter_episode(int(line.split()[2]))["C17"]
         if line.startswith("mark customblocks"):
             return self.custom_blocks_oracle(int(line.split()[2]))
         if line == "reset":
